@@ -60,19 +60,52 @@ theorem runNext_inv (s : RS) (post : List Ev) (pa : Bool) (ht : s.timers = []) (
 
 theorem setNow_inv (s : RS) (t : Nat) (h : Inv s) : Inv (setNow s t) := h
 
+theorem startPlay_inv (s0 : RS) (running : Bool) (sync : Nat) (ht : s0.timers = []) (hs : s0.stopped = false) :
+    Inv (startPlay s0 running sync).1 := by
+  unfold startPlay
+  split
+  · exact runNext_inv _ _ _ ht ⟨Or.inl ht, by simp [hs]⟩
+  · exact ⟨Or.inr ⟨s0.nextId, syncTime sync s0.nextTime, by simp [ht], rfl⟩, by simp [hs]⟩
+
+theorem timerBody_inv (s : RS) (ht : s.timers = []) (hi : Inv s) : Inv (timerBody s).1 := by
+  unfold timerBody
+  split
+  · exact hi
+  split
+  · exact runNext_inv _ _ _ ht ⟨Or.inl ht, fun hs => ⟨ht, (hi.2 hs).2⟩⟩
+  · exact runNext_inv _ _ _ ht hi
+
+theorem cancel_inv (s : RS) (h : Inv s) : Inv (cancelHandle s) := by
+  have ht : (cancelHandle s).timers = [] := cancel_timers _ h.1
+  refine ⟨Or.inl ht, fun hs => ⟨ht, ?_⟩⟩
+  rw [cancel_stopped] at hs
+  rw [cancel_dirty]
+  exact (h.2 hs).2
+
+theorem reqBody_inv (s1 : RS) (ev : Ev) (back : Bool) (ht : s1.timers = []) (hi : Inv s1) : Inv (reqBody s1 ev back).1 := by
+  unfold reqBody
+  split
+  · exact hi
+  split
+  · exact runNext_inv _ _ _ ht ⟨Or.inl ht, fun hs => ⟨ht, (hi.2 hs).2⟩⟩
+  · exact runNext_inv _ _ _ ht ⟨Or.inl ht, fun hs => ⟨ht, (hi.2 hs).2⟩⟩
+
+theorem reqBody_stopped (s1 : RS) (ev : Ev) (back : Bool) (h : s1.stopped = true) : reqBody s1 ev back = (s1, []) := by
+  unfold reqBody; rw [if_pos h]
+
 theorem dueAny_mem (s : RS) (tm : Nat × Nat) (h : dueAny s = some tm) : tm ∈ s.timers := by
   unfold dueAny at h
   exact List.mem_of_find?_eq_some h
 
 theorem step_inv (s : RS) (o : Op) (h : Inv s) : Inv (step s o).1 := by
   cases o with
-  | play durs num den loops start running manual t =>
+  | play durs num den loops start running manual sync t =>
     simp only [step]
     have h1 : Inv (stop (setNow s t)).1 := stop_inv _ (setNow_inv s t h)
     have h2 : (stop (setNow s t)).1.timers = [] := (h1.2 (stop_stopped _)).1
-    apply runNext_inv
+    apply startPlay_inv
     · exact h2
-    · exact ⟨Or.inl h2, by simp⟩
+    · rfl
   | stop t =>
     simp only [step, ctl]
     split
@@ -90,32 +123,17 @@ theorem step_inv (s : RS) (o : Op) (h : Inv s) : Inv (step s o).1 := by
   | resume t =>
     simp only [step, ctl]
     split
-    · have ht : (cancelHandle (setNow s t)).timers = [] := cancel_timers _ h.1
-      refine runNext_inv _ _ _ ht ?_
-      refine ⟨Or.inl ht, fun hs => ⟨ht, ?_⟩⟩
-      have hs' : (setNow s t).stopped = true := by rw [← cancel_stopped]; exact hs
-      show (cancelHandle (setNow s t)).dirty = false
-      rw [cancel_dirty]; exact (h.2 hs').2
+    · exact reqBody_inv _ _ _ (cancel_timers _ h.1) (cancel_inv _ h)
     · exact h
   | advance t =>
     simp only [step, ctl]
     split
-    · have ht : (cancelHandle (setNow s t)).timers = [] := cancel_timers _ h.1
-      refine runNext_inv _ _ _ ht ?_
-      refine ⟨Or.inl ht, fun hs => ⟨ht, ?_⟩⟩
-      have hs' : (setNow s t).stopped = true := by rw [← cancel_stopped]; exact hs
-      show (cancelHandle (setNow s t)).dirty = false
-      rw [cancel_dirty]; exact (h.2 hs').2
+    · exact reqBody_inv _ _ _ (cancel_timers _ h.1) (cancel_inv _ h)
     · exact h
   | back t =>
     simp only [step, ctl]
     split
-    · have ht : (cancelHandle (setNow s t)).timers = [] := cancel_timers _ h.1
-      refine runNext_inv _ _ _ ht ?_
-      refine ⟨Or.inl ht, fun hs => ⟨ht, ?_⟩⟩
-      have hs' : (setNow s t).stopped = true := by rw [← cancel_stopped]; exact hs
-      show (cancelHandle (setNow s t)).dirty = false
-      rw [cancel_dirty]; exact (h.2 hs').2
+    · exact reqBody_inv _ _ _ (cancel_timers _ h.1) (cancel_inv _ h)
     · exact h
   | speed num den t =>
     simp only [step, ctl]
@@ -134,7 +152,7 @@ theorem step_inv (s : RS) (o : Op) (h : Inv s) : Inv (step s o).1 := by
         · simp only [setNow, ht, List.mem_singleton] at hmem
           subst hmem
           simp [setNow, ht]
-      apply runNext_inv _ _ _ hnil
+      apply timerBody_inv _ hnil
       refine ⟨Or.inl hnil, fun hs => ⟨hnil, (h.2 hs).2⟩⟩
 
 theorem run_inv (ops : List Op) : ∀ s, Inv s → Inv (run s ops).1 := by
@@ -159,10 +177,14 @@ def onlyPaused (l : List Obs) : Prop := ∀ o ∈ l, o = Obs.ev .paused
 theorem runNext_stopped (s : RS) (post : List Ev) (pa : Bool) (h : s.stopped = true) : runNext s post pa = (s, []) := by
   unfold runNext; simp [h]
 
+theorem timerBody_stopped (s : RS) (h : s.stopped = true) : (timerBody s).1.stopped = true ∧ (timerBody s).2 = [] := by
+  unfold timerBody
+  rw [if_pos h]; exact ⟨h, rfl⟩
+
 theorem step_after_stop (s : RS) (o : Op) (hs : s.stopped = true) (hp : o.isPlay = false) :
     (step s o).1.stopped = true ∧ onlyPaused (step s o).2 := by
   cases o with
-  | play durs num den loops start running manual t => simp [Op.isPlay] at hp
+  | play durs num den loops start running manual sync t => simp [Op.isPlay] at hp
   | stop t =>
     simp only [step, ctl]
     split
@@ -177,20 +199,23 @@ theorem step_after_stop (s : RS) (o : Op) (hs : s.stopped = true) (hp : o.isPlay
   | resume t =>
     simp only [step, ctl]
     split
-    · rw [runNext_stopped _ _ _ (by show (cancelHandle (setNow s t)).stopped = true; rw [cancel_stopped]; exact hs)]
-      exact ⟨by show (cancelHandle (setNow s t)).stopped = true; rw [cancel_stopped]; exact hs, by intro o ho; simp at ho⟩
+    · have hc : (cancelHandle (setNow s t)).stopped = true := by rw [cancel_stopped]; exact hs
+      rw [reqBody_stopped _ _ _ hc]
+      exact ⟨hc, by intro o ho; simp at ho⟩
     · exact ⟨hs, by intro o ho; simp at ho⟩
   | advance t =>
     simp only [step, ctl]
     split
-    · rw [runNext_stopped _ _ _ (by show (cancelHandle (setNow s t)).stopped = true; rw [cancel_stopped]; exact hs)]
-      exact ⟨by show (cancelHandle (setNow s t)).stopped = true; rw [cancel_stopped]; exact hs, by intro o ho; simp at ho⟩
+    · have hc : (cancelHandle (setNow s t)).stopped = true := by rw [cancel_stopped]; exact hs
+      rw [reqBody_stopped _ _ _ hc]
+      exact ⟨hc, by intro o ho; simp at ho⟩
     · exact ⟨hs, by intro o ho; simp at ho⟩
   | back t =>
     simp only [step, ctl]
     split
-    · rw [runNext_stopped _ _ _ (by show (cancelHandle (setNow s t)).stopped = true; rw [cancel_stopped]; exact hs)]
-      exact ⟨by show (cancelHandle (setNow s t)).stopped = true; rw [cancel_stopped]; exact hs, by intro o ho; simp at ho⟩
+    · have hc : (cancelHandle (setNow s t)).stopped = true := by rw [cancel_stopped]; exact hs
+      rw [reqBody_stopped _ _ _ hc]
+      exact ⟨hc, by intro o ho; simp at ho⟩
     · exact ⟨hs, by intro o ho; simp at ho⟩
   | speed num den t =>
     simp only [step, ctl]
@@ -201,8 +226,10 @@ theorem step_after_stop (s : RS) (o : Op) (hs : s.stopped = true) (hp : o.isPlay
     simp only [step]
     split
     · exact ⟨hs, by intro o ho; simp at ho⟩
-    · rw [runNext_stopped _ _ _ (by exact hs)]
-      exact ⟨hs, by intro o ho; simp at ho⟩
+    · rename_i tm _
+      have f := timerBody_stopped { setNow s t with timers := (setNow s t).timers.filter (fun x => decide (x.1 ≠ tm.1)) }
+        (by exact hs)
+      exact ⟨f.1, by intro o ho; rw [f.2] at ho; simp at ho⟩
 
 /-! ### the absolute schedule -/
 
@@ -239,11 +266,17 @@ theorem sched_prefix_succ (durs : List Nat) (num den : Nat) : ∀ k i t,
     show Obs.eff i t :: _ <+: Obs.eff i t :: _
     exact (List.cons_prefix_cons).mpr ⟨rfl, ih _ _⟩
 
+/-- the step `_run_next_step` plays for `next_step_index = j ≥ 0`: `j` itself, or step 0 after the end of the show -/
+def wrapIdx (total j : Nat) : Nat := if j < total then j else 0
+
+theorem nxt_eq_wrap (total i : Nat) : nxt total i = wrapIdx total (i + 1) := by
+  unfold nxt wrapIdx; split <;> split <;> omega
+
 /-- the show is stopped/idle, or its single timer is due at `T` for step `i` of the given show -/
 def Sch (durs : List Nat) (num den : Nat) (s : RS) (i T : Nat) : Prop :=
   s.timers = [] ∨
-  (s.stopped = false ∧ s.durs = durs ∧ s.spNum = num ∧ s.spDen = den ∧ s.nextTime = T ∧
-    ∃ (id c : Nat), s.timers = [(id, T)] ∧ s.nextIdx = (c : Int) + 1 ∧ c < durs.length ∧ nxt durs.length c = i)
+  (s.stopped = false ∧ s.pending = false ∧ s.durs = durs ∧ s.spNum = num ∧ s.spDen = den ∧ s.nextTime = T ∧
+    ∃ (id j : Nat), s.timers = [(id, T)] ∧ s.nextIdx = (j : Int) ∧ wrapIdx durs.length j = i)
 
 def fires (ts : List Nat) : List Op := ts.map Op.fire
 
@@ -258,8 +291,8 @@ theorem fires_idle (ts : List Nat) : ∀ s, s.timers = [] → effs (run s (fires
     have := ih (setNow s t) h
     simpa [fires, effs] using this
 
-theorem playStep_sch (s : RS) (idx : Nat) (evs : List Ev) (hidx : idx < s.durs.length) (ht : s.timers = [])
-    (hs : s.stopped = false) :
+theorem playStep_sch (s : RS) (idx : Nat) (evs : List Ev) (ht : s.timers = [])
+    (hs : s.stopped = false) (hp : s.pending = false) :
     effs (playStep s idx evs false).2 = [Obs.eff idx s.nextTime] ∧
     Sch s.durs s.spNum s.spDen (playStep s idx evs false).1 (nxt s.durs.length idx)
       (s.nextTime + stepDur s.durs s.spNum s.spDen idx) := by
@@ -271,7 +304,7 @@ theorem playStep_sch (s : RS) (idx : Nat) (evs : List Ev) (hidx : idx < s.durs.l
     rw [this]
   · simp only
     split
-    · refine Or.inr ⟨hs, rfl, rfl, rfl, rfl, s.nextId, idx, ?_, rfl, hidx, rfl⟩
+    · refine Or.inr ⟨hs, hp, rfl, rfl, rfl, rfl, s.nextId, idx + 1, ?_, rfl, (nxt_eq_wrap _ _).symm⟩
       simp [ht, ttn, stepDur]
     · exact Or.inl ht
 
@@ -287,37 +320,40 @@ theorem stop_timers_nil (s : RS) (ht : s.timers = []) : (stop s).1.timers = [] :
   · exact ht
   · exact cancel_timers _ (Or.inl ht)
 
-/-- firing the timer of a scheduled show plays exactly the scheduled step at the scheduled time -/
-theorem runNext_sch (durs : List Nat) (num den : Nat) (s : RS) (c : Nat) (hs : s.stopped = false) (hd : s.durs = durs)
-    (hn : s.spNum = num) (hdn : s.spDen = den) (ht : s.timers = []) (hi : s.nextIdx = (c : Int) + 1)
-    (hc : c < durs.length) :
-    (effs (runNext s [] false).2 = [] ∧ (runNext s [] false).1.timers = []) ∨
-    (effs (runNext s [] false).2 = [Obs.eff (nxt durs.length c) s.nextTime] ∧
-      Sch durs num den (runNext s [] false).1 (nxt durs.length (nxt durs.length c))
-        (s.nextTime + stepDur durs num den (nxt durs.length c))) := by
+/-- one `_run_next_step` of a running show whose timer is gone, at `next_step_index = j ≥ 0`: it plays step
+`wrapIdx j` with start time `next_step_time` and schedules the following one, or (no loops left) stops -/
+theorem runNext_at (durs : List Nat) (num den : Nat) (s : RS) (j : Nat) (post : List Ev) (hs : s.stopped = false)
+    (hp : s.pending = false) (hd : s.durs = durs)
+    (hn : s.spNum = num) (hdn : s.spDen = den) (ht : s.timers = []) (hi : s.nextIdx = (j : Int)) :
+    (effs (runNext s post false).2 = [] ∧ (runNext s post false).1.timers = []) ∨
+    (effs (runNext s post false).2 = [Obs.eff (wrapIdx durs.length j) s.nextTime] ∧
+      Sch durs num den (runNext s post false).1 (nxt durs.length (wrapIdx durs.length j))
+        (s.nextTime + stepDur durs num den (wrapIdx durs.length j))) := by
   subst hd hn hdn
   unfold runNext
   rw [if_neg (by rw [hs]; simp)]
   have hneg : ¬ (s.nextIdx < 0) := by omega
   simp only [if_neg hneg]
   by_cases hw : s.nextIdx ≥ (s.durs.length : Int)
-  · have hnx : nxt s.durs.length c = 0 := by unfold nxt; rw [if_pos (by omega)]
-    have h0 : 0 < s.durs.length := by omega
+  · have hnx : wrapIdx s.durs.length j = 0 := by unfold wrapIdx; rw [if_neg (by omega)]
     rw [if_pos hw, hnx]
     split
-    · exact Or.inr (playStep_sch s 0 _ h0 ht hs)
+    · exact Or.inr (playStep_sch s 0 _ ht hs hp)
     · rename_i n _
-      exact Or.inr (playStep_sch { s with loops := some n } 0 _ h0 ht hs)
+      exact Or.inr (playStep_sch { s with loops := some n } 0 _ ht hs hp)
     · left
       constructor
       · show effs ((stop s).2 ++ _) = []
         rw [effs_append, stop_effs, effs_evs]; rfl
       · exact stop_timers_nil s ht
-  · have hnx : nxt s.durs.length c = c + 1 := by unfold nxt; rw [if_neg (by omega)]
+  · have hnx : wrapIdx s.durs.length j = j := by unfold wrapIdx; rw [if_pos (by omega)]
     rw [if_neg hw, hnx]
-    have : s.nextIdx.toNat = c + 1 := by omega
+    have : s.nextIdx.toNat = j := by omega
     rw [this]
-    exact Or.inr (playStep_sch s (c + 1) _ (by omega) ht hs)
+    exact Or.inr (playStep_sch s j _ ht hs hp)
+
+theorem timerBody_run (s : RS) (hs : s.stopped = false) (hp : s.pending = false) : timerBody s = runNext s [] false := by
+  unfold timerBody; rw [if_neg (by rw [hs]; simp), if_neg (by rw [hp]; simp)]
 
 theorem fires_follow_schedule (durs : List Nat) (num den : Nat) (ts : List Nat) : ∀ (s : RS) (i T : Nat),
     Sch durs num den s i T → effs (run s (fires ts)).2 <+: sched durs num den ts.length i T := by
@@ -325,14 +361,14 @@ theorem fires_follow_schedule (durs : List Nat) (num den : Nat) (ts : List Nat) 
   | nil => intro s i T _; exact List.nil_prefix
   | cons t r ih =>
     intro s i T h
-    rcases h with h | ⟨hs, hd, hn, hdn, hnt, id, c, htm, hidx, hc, hi⟩
+    rcases h with h | ⟨hs, hp, hd, hn, hdn, hnt, id, j, htm, hidx, hi⟩
     · rw [fires_idle _ s h]; exact List.nil_prefix
     · simp only [fires, List.map_cons, run, step]
       cases hdue : dueAny (setNow s t) with
       | none =>
         simp only
         have h' : Sch durs num den (setNow s t) i T :=
-          Or.inr ⟨hs, hd, hn, hdn, hnt, id, c, htm, hidx, hc, hi⟩
+          Or.inr ⟨hs, hp, hd, hn, hdn, hnt, id, j, htm, hidx, hi⟩
         have := ih (setNow s t) i T h'
         simp only [List.nil_append]
         exact List.IsPrefix.trans this (sched_prefix_succ _ _ _ _ _ _)
@@ -342,8 +378,8 @@ theorem fires_follow_schedule (durs : List Nat) (num den : Nat) (ts : List Nat) 
         simp only [setNow, htm, List.mem_singleton] at hmem
         subst hmem
         have hnil : ((setNow s t).timers.filter (fun x => decide (x.1 ≠ id))) = [] := by simp [setNow, htm]
-        rw [hnil]
-        have key := runNext_sch durs num den { setNow s t with timers := [] } c hs hd hn hdn rfl hidx hc
+        rw [hnil, timerBody_run _ (by exact hs) (by exact hp)]
+        have key := runNext_at durs num den { setNow s t with timers := [] } j [] hs hp hd hn hdn rfl hidx
         dsimp only at key
         rw [effs_append]
         rcases key with ⟨he, htn⟩ | ⟨he, hsch⟩
@@ -351,7 +387,7 @@ theorem fires_follow_schedule (durs : List Nat) (num den : Nat) (ts : List Nat) 
           unfold fires at hidle
           rw [he, hidle]; exact List.nil_prefix
         · rw [he]
-          show Obs.eff (nxt durs.length c) (setNow s t).nextTime :: _ <+: Obs.eff i T :: _
+          show Obs.eff (wrapIdx durs.length j) (setNow s t).nextTime :: _ <+: Obs.eff i T :: _
           have hT : (setNow s t).nextTime = T := hnt
           rw [hi, hT]
           refine (List.cons_prefix_cons).mpr ⟨rfl, ?_⟩
@@ -359,26 +395,70 @@ theorem fires_follow_schedule (durs : List Nat) (num den : Nat) (ts : List Nat) 
           rw [hi, hT] at this
           exact this
 
-/-- the first step of a freshly played show, followed by any timer callbacks -/
-theorem first_step (durs : List Nat) (num den : Nat) (ts : List Nat) (s0 : RS) (start T : Nat) (h1 : 1 ≤ start)
-    (h2 : start ≤ durs.length) (hs : s0.stopped = false) (ht : s0.timers = []) (hi : s0.nextIdx = (start : Int) - 1)
+theorem startIdx_nonneg (start : Int) (total : Nat) (h : 0 < total) : 0 ≤ startIdx start total := by
+  unfold startIdx
+  split
+  · omega
+  · split
+    · exact Int.emod_nonneg _ (by omega)
+    · omega
+
+/-- the step a freshly played show starts with: `start_step` (1-based), a negative one counted from the end, the first
+step for 0 and for a value beyond the end -/
+def firstIdx (start : Int) (total : Nat) : Nat := wrapIdx total (startIdx start total).toNat
+
+/-- the first `_run_next_step` of a fresh instance (whatever events it posts), followed by any timer callbacks -/
+theorem first_step (durs : List Nat) (num den : Nat) (ts : List Nat) (s0 : RS) (post : List Ev) (start : Int) (T : Nat)
+    (hlen : 0 < durs.length) (hs : s0.stopped = false) (hp : s0.pending = false) (ht : s0.timers = [])
+    (hi : s0.nextIdx = startIdx start durs.length)
     (hd : s0.durs = durs) (hn : s0.spNum = num) (hdn : s0.spDen = den) (hT : s0.nextTime = T) :
-    effs ((runNext s0 [.played] (!true)).2 ++ (run (runNext s0 [.played] (!true)).1 (fires ts)).2) <+:
-      sched durs num den (ts.length + 1) (start - 1) T := by
-  have hrn : runNext s0 [.played] (!true) = playStep s0 (start - 1) [.played] false := by
-    unfold runNext
-    rw [if_neg (by rw [hs]; simp)]
-    have hneg : ¬ (s0.nextIdx < 0) := by omega
-    simp only [if_neg hneg]
-    have hw : ¬ (s0.nextIdx ≥ (s0.durs.length : Int)) := by rw [hd]; omega
-    rw [if_neg hw]
-    have : s0.nextIdx.toNat = start - 1 := by omega
-    rw [this]; rfl
-  rw [hrn]
-  have key := playStep_sch s0 (start - 1) [.played] (by rw [hd]; omega) ht hs
-  rw [hd, hn, hdn, hT] at key
-  rw [effs_append, key.1]
-  show Obs.eff (start - 1) T :: _ <+: Obs.eff (start - 1) T :: _
-  exact (List.cons_prefix_cons).mpr ⟨rfl, fires_follow_schedule durs num den ts _ _ _ key.2⟩
+    effs ((runNext s0 post false).2 ++ (run (runNext s0 post false).1 (fires ts)).2) <+:
+      sched durs num den (ts.length + 1) (firstIdx start durs.length) T := by
+  have hnn := startIdx_nonneg start durs.length hlen
+  have hi' : s0.nextIdx = (((startIdx start durs.length).toNat : Nat) : Int) := by rw [hi]; omega
+  have key := runNext_at durs num den s0 _ post hs hp hd hn hdn ht hi'
+  rw [effs_append]
+  rcases key with ⟨he, htn⟩ | ⟨he, hsch⟩
+  · rw [he, fires_idle ts _ htn]; exact List.nil_prefix
+  · rw [he, hT]
+    show Obs.eff (firstIdx start durs.length) T :: _ <+: Obs.eff (firstIdx start durs.length) T :: _
+    refine (List.cons_prefix_cons).mpr ⟨rfl, ?_⟩
+    have := fires_follow_schedule durs num den ts _ _ _ hsch
+    rw [hT] at this
+    exact this
+
+/-- a show waiting for its synchronised start at `T`: nothing is played before the start timer runs; from then on the
+absolute schedule starting at `T` is followed -/
+theorem fires_pending (durs : List Nat) (num den : Nat) (start : Int) (T : Nat) (hlen : 0 < durs.length) (ts : List Nat) :
+    ∀ (s : RS), s.stopped = false → s.pending = true → s.pauseAfter = false → s.durs = durs → s.spNum = num →
+      s.spDen = den → s.nextTime = T → (∃ id, s.timers = [(id, T)]) → s.nextIdx = startIdx start durs.length →
+      effs (run s (fires ts)).2 <+: sched durs num den ts.length (firstIdx start durs.length) T := by
+  induction ts with
+  | nil => intro s _ _ _ _ _ _ _ _ _; exact List.nil_prefix
+  | cons t r ih =>
+    intro s hs hp hpa hd hn hdn hT ⟨id, htm⟩ hi
+    simp only [fires, List.map_cons, run, step]
+    cases hdue : dueAny (setNow s t) with
+    | none =>
+      simp only [List.nil_append]
+      have := ih (setNow s t) hs hp hpa hd hn hdn hT ⟨id, htm⟩ hi
+      exact List.IsPrefix.trans this (sched_prefix_succ _ _ _ _ _ _)
+    | some tm =>
+      simp only
+      have hmem := dueAny_mem _ _ hdue
+      simp only [setNow, htm, List.mem_singleton] at hmem
+      subst hmem
+      have hnil : ((setNow s t).timers.filter (fun x => decide (x.1 ≠ id))) = [] := by simp [setNow, htm]
+      rw [hnil]
+      have hb : timerBody { setNow s t with timers := [] } =
+          runNext { setNow s t with timers := [], pending := false, started := true } [.played] false := by
+        unfold timerBody
+        rw [if_neg (by show ¬ (s.stopped = true); rw [hs]; simp), if_pos (by exact hp)]
+        have : (setNow s t).pauseAfter = false := hpa
+        dsimp only
+        rw [this]
+      rw [hb]
+      exact first_step durs num den r { setNow s t with timers := [], pending := false, started := true } [.played] start T hlen
+        hs rfl rfl hi hd hn hdn hT
 
 end MpfVerif.Show
